@@ -8,7 +8,13 @@ for f in sorted(glob.glob('/verif/seeded/*/meta.json')):
     first = next((runs[k] for k in ('first', 'second', 'final') if runs.get(k)), None)
     last = next((runs[k] for k in ('final', 'second', 'first') if runs.get(k)), None)
     def v(r): return '—' if r is None else ('caught' if r['caught'] else 'missed')
-    by = ', '.join(last['by']) if last and last['caught'] else ''
+    names = []
+    for b in (last['by'] if last and last['caught'] else []):
+        if b.startswith('obligation '):
+            b = 'contract of ' + b[len('obligation '):].split('/')[0]
+        if b not in names:
+            names.append(b)
+    by = ', '.join(names)
     conf = m['confirmed']
     ok = conf['existing_tests_pass_with_patch'] and conf['demo_fails_with_patch'] and conf['demo_passes_without_patch']
     rows.append('| %s | %s | %s | %s | %s | %s |' % (m['change'], m['needs_to_manifest'].replace('|', '/'), 'yes' if ok else 'no (see meta.json)', v(first), v(last), by.replace('|', '/')))
